@@ -4,7 +4,7 @@ worktree of /repo, runs the property's check there and requires a VIOLATION nami
 'harmless' entries must exit 0.  Usage: run.py [name-substring ...]"""
 import json, os, subprocess, sys, glob, shutil, time
 
-WT = "/tmp/akv_selftest_wt"
+WT = f"/tmp/akv_selftest_wt_{os.getpid()}"
 def sh(*a, **k): return subprocess.run(a, capture_output=True, text=True, **k)
 
 def main():
